@@ -664,6 +664,11 @@ def _all_views(t):
     brs, ps, segs = t.get_branches(), t.get_paths(), t.get_segments()
     out = {"branches": [_dump_view(b) for b in brs], "paths": [_dump_view(p) for p in ps][:6],
            "segments": [_dump_view(s_) for s_ in list(segs)[:8]]}
+    if len(segs):  # the collection-level accessors of the segment lists
+        bsegs = brs[0].get_segments()
+        out["segment_collections"] = [np.array(segs.id()), np.array(segs.xyz()), np.array(segs.r()),
+                                      np.array(segs.xyzr()), np.array(segs.type()),
+                                      np.array(bsegs.xyz()) if len(bsegs) else None]
     k = t.number_of_nodes() // 2
     nd = t.node(k)
     out["node"] = [nd.x, nd.y, nd.z, nd.r, int(nd.type), int(nd.id), int(nd.pid),
@@ -689,7 +694,7 @@ def _views_under_custom_names(ctx, case):
     ctx.count("views_compared_under_custom_column_names")
     if r:
         ctx.violation("custom-column-names", f"views / detached copies of a tree: {r}", case)
-    r = G.same_under_ambient(lambda: _all_views(G.renamed(tree, -1)), pick=case["hseed"])
+    r = G.same_under_ambient(lambda: _all_views(G.renamed(tree, -1)))
     if r:
         ctx.violation("ambient-state", f"views / detached copies of a tree: {r}", case)
 
